@@ -304,6 +304,10 @@ protected:
   }
 
 public:
+#ifdef BPP_CORE_VERIF
+  /// Verification hook (guarded): called after every state-changing member.
+  static void (*verifAudit_)(const Parameter* p, const char* where);
+#endif
   static const std::shared_ptr<IntervalConstraint> R_PLUS;
   static const std::shared_ptr<IntervalConstraint> R_PLUS_STAR;
   static const std::shared_ptr<IntervalConstraint> R_MINUS;
